@@ -1,6 +1,6 @@
 """Source of MANIFEST.json (bin/mkmanifest)."""
 
-SETUP_CMD = "true"
+SETUP_CMD = "cd /verif/checker && GOFLAGS=-mod=mod GOPROXY=off GOSUMDB=off GOTOOLCHAIN=local go build -o /verif/bin/porcheck ."
 
 NOTES = ("All checks are runtime monitors over executions of the real code (DESIGN.md). Exit 0 = held on what was "
          "explored; 1 = VIOLATION lines; 2 = the check could not run or observed nothing (inconclusive, never a claim). "
@@ -119,4 +119,52 @@ TABLE = {
              "repeated under -race. ~880 closes per quick run.",
         note="'Bounded time' is the stall rule. Data written by the end that is being closed upon (reverse direction) is not judged.",
         technique="runtime monitoring: keyed-stream + end-of-stream oracle on real sessions with injected delays at the close hooks"),
+    "C03": dict(
+        ready=True, level="exploration",
+        text="Reference model expected(endpoint, name) = target(name) if configured and allowed else REFUSED, judged on real servers of every kind (tcp, "
+             "unix, two websocket paths, udp, stdio, dns) through the real client path and through a raw multistream client (several names on one "
+             "stream, ls, valid-after-invalid): which recording target accepted (distinct banners, bytes pushed through) and, for refusals, that no "
+             "target accepted anything (barrier connection through each target's accept queue). All tables of length 1-2 over an 8-name pool with all "
+             "allow-list subsets in both orders are enumerated for tcp and ws; ~110k requests quick.",
+        note="Targets are unix sockets in the child's private directory so that only the server under test can reach them.",
+        technique="runtime monitoring: reference-model (routing table) oracle with accept-queue barriers on real sessions, small-scope exhaustive configurations"),
+    "C04": dict(
+        ready=True, level="fault_enumeration",
+        text="(A) wire observer: real client <-> recording relay <-> real server over 11 carriers x certificate x --secure x --insecure; a random marker in "
+             "the payload is searched in the de-framed capture (websocket unmasked, DNS decoded, KCP datagrams) and both ends' secure flags are compared "
+             "(client object, server.session hook); (B) ~2000 scripted-server behaviours (capability forms x continuations x error answers) against the real "
+             "client: no marker in clear when security is required or StartTLS was advertised; (C) plaintext peers against TLS endpoints never get a session.",
+        note="A hand-written client that ignores an offered StartTLS is outside the statement (recorded as observation). udp+secret wires are AES "
+             "encrypted, so only the flags are judged there.",
+        technique="runtime monitoring: wire-capture marker search + secure-flag agreement on real sessions, scripted-peer fault enumeration"),
+    "C13": dict(
+        ready=True, level="exploration",
+        text="One real listener, 2-32 clients each behind its own source address on the in-memory DNS network: (a) concurrent handshakes/transfers/closes "
+             "with a recorder around onMessage; the history {open->id, use(id,addr)->result, close} with stamps from one atomic counter is partitioned by slot and "
+             "checked for linearizability with porcupine against a slot model (free/live(owner)/retired(owner)), plus online monitors (no id handed out while live, "
+             "keyed streams contain only their own key), plain and under -race with delays at the dns.newUser.slot hook; (b) every command spoofed with a live id "
+             "from a foreign address leaves the victim's in-package snapshot unchanged and its next transfer exact; (c) the same against retired ids and reused "
+             "slots; (d) real expiry passes (observed through the dns.expiry.pass hook) with shortened timeouts: a live session survives the expiry of an earlier one.",
+        note="Exact tunnel error codes are diagnostics, not verdicts (an unlocked reader may see either of two rejection codes). Expiry waits for real "
+             "one-minute passes; the oracle is the logical outcome after an observed pass.",
+        technique="runtime monitoring: porcupine linearizability check of recorded histories + state-snapshot and keyed-stream monitors, hook-injected delays"),
+    "C14": dict(
+        ready=True, level="fault_enumeration",
+        text="One scenario per child process. Growth: probe vector (goroutines by function class, descriptors after GC, outstanding copy loops from hook "
+             "counters) at quiescent points after N1 and N2 finished logical connections (sequential either side closing first, overlapping, mixed) may differ by <= 4. "
+             "Session end: with two logical connections open the physical session is ended 8 ways (client shutdown, relay FIN/RST, one-sided cuts, garbage either way, "
+             "black-holed carrier) and all session-attributable goroutines/copy loops/descriptors must be gone within 75 s; then a 3 s idle window must show no "
+             "accept-loop spinning (hook counter) and < 0.5 core CPU.",
+        note="Client and server share the process, so footprints are judged jointly against the pre-session baseline. 'Eventually reclaimed' is restated as "
+             "within 75 s (the multiplexer's keep-alive needs up to 60 s to notice a silent carrier).",
+        technique="runtime monitoring: goroutine/descriptor/CPU census at quiescent points + hook counters, enumeration of session-ending faults via relays"),
+    "C16": dict(
+        ready=True, level="fault_enumeration",
+        text="Reference policy model judged on real clients: upstream lists of 1-4 entries (tcp, tcp+tls, ws, udp) with every failing subset for length <= 3 in "
+             "every manner (refused, silent for ever, silent after the carrier handshake, 400/garbage/close, plaintext while --secure), forward address "
+             "none/reachable/refused; who served is observed by per-endpoint recording targets and the recorded Connect calls; m in {2,8,32} concurrent local "
+             "connections with a sleep at the upstream.locked hook must share one physical session (relay count and server.session hook); 26 loss histories "
+             "(FIN/RST idle, mid-transfer, during open, server restart/gone, black hole) after which the next local connection must be served over a new session.",
+        note="A silent upstream is judged never-abandoned only after >= 90 s without the next upstream being tried and with the stall rule satisfied.",
+        technique="runtime monitoring: reference-policy oracle over enumerated failure subsets and loss histories on real clients with scripted upstreams and relays"),
 }
